@@ -33,8 +33,15 @@ from typing import Any, Callable, Optional
 WATCHDOG_S = 120.0
 
 
-class HarnessError(Exception):
-    """The simulator itself failed (hang, replay divergence, step cap)."""
+class HarnessError(BaseException):
+    """The simulator itself failed (hang, replay divergence, step cap).
+
+    Not an ``Exception``: neither the code under test nor an oracle's ``except Exception`` may mistake a failure of the
+    harness for an outcome of the run."""
+
+
+class ScenarioTimeout(HarnessError):
+    """The per-scenario wall-clock watchdog fired (raised from the SIGALRM handler in the main thread)."""
 
 
 class SimDeadlock(Exception):
